@@ -221,6 +221,21 @@ __CPROVER_ensures((N_BOTH && TF_HELLO_OK(P->rx_head) && OLD(EP->user_aio) != NUL
 __CPROVER_ensures((N_BOTH && TF_HELLO_OK(P->rx_head) && OLD(EP->user_aio) != NULL && OLD(g_waitq.n) == 0) ==> (!g_waitq.has_p && OLD(EP->user_aio)->a_outputs[0] == (void *) P->pipe && P->rcv_max == EP->rcv_max))
 ;
 
+/* ---- start of the negotiation: our own connection header ---------------- */
+/* we announce 00 'S' 'P' 00 <our protocol id, big endian> 00 00 -- exactly 8 bytes -- and the pipe waits on negopipes;
+ * the peer gets 10 s to answer (C11: a silent peer cannot hold the connection for ever) */
+static void ipc_pipe_start(ipc_pipe *p, nng_stream *conn, ipc_ep *ep)
+__CPROVER_requires(__CPROVER_is_fresh(p, sizeof(*p)) && __CPROVER_is_fresh(ep, sizeof(*ep)))
+__CPROVER_requires(g_the_pipe == (void *) p && g_negoq_addr == &ep->nego_pipes && g_waitq_addr == &ep->wait_pipes && !g_negoq.has_p && !g_waitq.has_p)
+__CPROVER_assigns(p->conn, p->ep, p->proto, __CPROVER_object_upto(&p->tx_head[0], sizeof(p->tx_head)), p->got_tx_head, p->got_rx_head, p->want_tx_head, p->want_rx_head, TF_IOV_OF(p->neg_aio), p->neg_aio.a_timeout, p->neg_aio.a_use_expire, g_negoq, TF_IO_GHOSTS)
+__CPROVER_ensures(TF_HELLO_OK(p->tx_head) && TF_BE16(&p->tx_head[4]) == ep->proto && p->proto == ep->proto)
+__CPROVER_ensures(p->got_tx_head == 0 && p->got_rx_head == 0 && p->want_tx_head == 8 && p->want_rx_head == 8)
+__CPROVER_ensures(p->neg_aio.a_nio == 1 && p->neg_aio.a_iov[0].iov_buf == (void *) &p->tx_head[0] && p->neg_aio.a_iov[0].iov_len == 8)
+__CPROVER_ensures(p->conn == conn && p->ep == ep && g_negoq.has_p && g_negoq.n == OLD(g_negoq.n) + 1 && !g_waitq.has_p)
+__CPROVER_ensures(g_send_calls == OLD(g_send_calls) + 1 && g_recv_calls == OLD(g_recv_calls) && g_io_aio == &p->neg_aio && g_io_conn == conn)
+__CPROVER_ensures(p->neg_aio.a_timeout == 10000 && !p->neg_aio.a_use_expire)
+;
+
 static uint16_t ipc_pipe_peer(void *arg)
 __CPROVER_requires(__CPROVER_is_fresh(arg, sizeof(ipc_pipe)))
 __CPROVER_assigns()
